@@ -37,7 +37,8 @@ TRUSTED = ["modelled, not verified: python-can can.Message construction (a remot
 ASSUMPTIONS = ["callbacks are identities in the model (the harness uses real bound methods, equal but not identical at every use, "
                "for node callbacks and for user callbacks 0 and 3, plain functions for 1 and 4, a list-derived callable "
                "that is falsy while empty for 2, a callable with __bool__ (falsy before its first frame) for 5; all with identity equality)",
-               "callbacks do not raise and do not modify subscriptions while being invoked",
+               "theorems: callbacks do not raise and do not touch the network while being invoked; re-entrant callbacks "
+               "(case kind reent) are modelled (live-list iteration of Network.notify) and tied by correspondence only",
                "timestamps are injected integers"]
 
 ANCHORS = [("canopen.network", "Network.__init__"), ("canopen.network", "Network.subscribe"),
@@ -548,6 +549,9 @@ def _check_delivery_re(ref, i, op, got, c, data, ts, scripts):
             l1 = ref.subscribers(c)
             removed |= set(l0) - set(l1)
             added |= set(l1) - set(l0)
+            # unsubscribed and subscribed again by the same operation (a node attached anew): it moved
+            k0, k1 = [x for x in l0 if x in l1], [x for x in l1 if x in l0]
+            removed |= {x for x, y in zip(k0, k1) if x != y}
     # twice in one dispatch: only explicable (live list) for a callback that was unsubscribed and
     # subscribed again while the frame was being dispatched
     dups = sorted({repr(h) for h in hs if hs.count(h) > 1 and (JUDGE_REENTRANT_SKIP or h not in removed)})
